@@ -36,6 +36,10 @@ type C18Case struct {
 	// with the last bytes.
 	Fault         int  `json:"fault,omitempty"`
 	FaultWithData bool `json:"fault_with_data,omitempty"`
+	// LineReads (Reader iterators only): the stream delivers exactly one line per Read, so that
+	// every Read ends at a line - and so also at a record - boundary, as a pipe fed by a
+	// line-buffered producer does.
+	LineReads bool `json:"line_reads,omitempty"`
 }
 
 var c18Iters = []string{"fasta", "fastq", "sam", "samh", "bed", "newick", "fasta-file", "fastq-file", "sam-file", "samh-file", "bed-file", "newick-file",
@@ -90,6 +94,10 @@ func genC18(t *rapid.T, thorough bool) C18Case {
 		} else {
 			c.Text = StreamText{Lines: genWellFormedLines(t, format, rapid.IntRange(1, 8).Draw(t, "nrecs"))}
 		}
+		if format == c.Iter && rapid.IntRange(0, 3).Draw(t, "lineReads") == 2 {
+			c.LineReads = true
+			return c
+		}
 		if format == c.Iter && rapid.IntRange(0, 3).Draw(t, "faulty") == 1 {
 			c.Fault = rapid.IntRange(1, 2000).Draw(t, "fault")
 			c.FaultWithData = rapid.Bool().Draw(t, "faultWithData")
@@ -119,6 +127,13 @@ func iterRunner(c C18Case) (run func(cb func(Item) bool), unordered bool, errorI
 		tr := trie.New()
 		for _, w := range c.Words {
 			if len(w) > 0 {
+				tr.Add(w)
+			}
+		}
+		// a trie with a history: every third word is deleted and added again (the set is the same)
+		for i, w := range c.Words {
+			if len(w) > 0 && i%3 == 0 {
+				tr.Delete(w)
 				tr.Add(w)
 			}
 		}
@@ -164,6 +179,20 @@ func iterRunner(c C18Case) (run func(cb func(Item) bool), unordered bool, errorI
 			codec.Reader(&fault.FailAfter{Data: text, K: k, WithData: c.FaultWithData}, cb)
 		}, false, codec.ErrorIsLast, true
 	}
+	if c.LineReads {
+		var sizes []int
+		start := 0
+		for i, b := range text {
+			if b == '\n' {
+				sizes = append(sizes, i+1-start)
+				start = i + 1
+			}
+		}
+		if start < len(text) {
+			sizes = append(sizes, len(text)-start)
+		}
+		return func(cb func(Item) bool) { codec.Reader(&fault.Chunked{Data: text, Sizes: sizes}, cb) }, false, codec.ErrorIsLast, true
+	}
 	return func(cb func(Item) bool) { codec.Reader(bytes.NewReader(text), cb) }, false, codec.ErrorIsLast, true
 }
 
@@ -198,6 +227,9 @@ func checkC18(c C18Case, o *Obs) error {
 	fullSet := map[string]int{}
 	for _, it := range full {
 		fullSet[it.key()]++
+		if unordered && fullSet[it.key()] > 1 {
+			return fmt.Errorf("%s: the uninterrupted run reports %q more than once: %s", c.Iter, it.key(), describeItems(full))
+		}
 	}
 	stops := 0
 	// every stop position for N <= 400; for longer runs the positions around the ends, around
@@ -260,6 +292,14 @@ func checkC18(c C18Case, o *Obs) error {
 			for i := range seen {
 				if seen[i].key() != full[i].key() {
 					return fmt.Errorf("%s: stopping at item %d: item %d is %s, but the uninterrupted run has %s there", c.Iter, s, i, seen[i], full[i])
+				}
+			}
+		}
+		// the items the consumer holds are still what they were when they were yielded
+		for i, it := range seen {
+			if it.Err == nil && it.canon != nil {
+				if now := it.canon(); now != it.Rec {
+					return fmt.Errorf("%s: stopping at item %d of %d: item %d was %s when it was yielded and is %s after the stop", c.Iter, s, N, i, it, Item{Rec: now})
 				}
 			}
 		}
@@ -329,9 +369,31 @@ func exhaustiveC18(thorough bool, emit func(C18Case) bool) {
 	for _, f := range codecNames {
 		ins := append(append([]string{}, smallInputs[f]...), tinyInputs[f]...)
 		for _, in := range ins {
-			if !emit(C18Case{Iter: f, Text: StreamText{Raw: gen.B(in)}}) || !emit(C18Case{Iter: f + "-file", Text: StreamText{Raw: gen.B(in)}}) {
+			if !emit(C18Case{Iter: f, Text: StreamText{Raw: gen.B(in)}}) || !emit(C18Case{Iter: f + "-file", Text: StreamText{Raw: gen.B(in)}}) ||
+				!emit(C18Case{Iter: f, Text: StreamText{Raw: gen.B(in)}, LineReads: true}) {
 				return
 			}
+		}
+	}
+	// a few hundred small numbered records, one line per Read
+	for _, f := range codecNames {
+		var raw bytes.Buffer
+		for i := 0; i < 300; i++ {
+			switch f {
+			case "fasta":
+				fmt.Fprintf(&raw, ">r%d\nACGT%d\n", i, i)
+			case "fastq":
+				fmt.Fprintf(&raw, "@r%d\nACGTA\n+\nII%03d\n", i, i)
+			case "sam", "samh":
+				fmt.Fprintf(&raw, "r%d\t0\tr\t%d\t2\tM\t=\t4\t5\tA\tI\n", i, i+1)
+			case "bed":
+				fmt.Fprintf(&raw, "c\t%d\t%d\tn%d\n", i, i+5, i)
+			case "newick":
+				fmt.Fprintf(&raw, "(a%d,b)c;\n", i)
+			}
+		}
+		if !emit(C18Case{Iter: f, Text: StreamText{Raw: raw.Bytes()}, LineReads: true}) {
+			return
 		}
 	}
 	// inputs as real tools write them, and a record with a line far longer than any line buffer
